@@ -5,7 +5,7 @@
 # Writes /verif/seeded/<ID>-<N>/{patch.diff,demo.py,notes.md,meta.json}
 set -u
 ID="$1"; N="$2"; shift 2
-if [ "${ROUND:-1}" = "2" ]; then SD=/tmp/seed2_${ID}_out; WT=/tmp/w2_$ID; OUT=/verif/seeded/$ID-$((N+2)); else SD=/tmp/seed_${ID}_out; WT=/tmp/wt_$ID; OUT=/verif/seeded/$ID-$N; fi
+if [ "${ROUND:-1}" = "3" ]; then SD=/tmp/seed3_${ID}_out; WT=/tmp/w3_$ID; OUT=/verif/seeded/$ID-$((N+4)); elif [ "${ROUND:-1}" = "2" ]; then SD=/tmp/seed2_${ID}_out; WT=/tmp/w2_$ID; OUT=/verif/seeded/$ID-$((N+2)); else SD=/tmp/seed_${ID}_out; WT=/tmp/wt_$ID; OUT=/verif/seeded/$ID-$N; fi
 mkdir -p "$OUT"; cp "$SD/patch$N.diff" "$OUT/patch.diff"; cp "$SD/demo$N.py" "$OUT/demo.py"; cp "$SD/notes.md" "$OUT/notes.md" 2>/dev/null
 HEAD=$(git -C /repo rev-parse HEAD)
 git -C "$WT" checkout -q -- . ; git -C "$WT" checkout -q --detach "$HEAD" || exit 3
